@@ -21,7 +21,7 @@ ASSUMPTIONS = ["fshift is linear in its signal argument (monitored on random com
                "integer shifts or Nyquist-free signals"]
 REQUIRED = {"contract:fshift_shape_dtype": 500, "contract:fshift_input_untouched": 500, "roll_checked": 200,
             "additivity_checked": 50, "analytic_checked": 50, "corrmax_checked": 50, "pertrace_checked": 50, "shift_vector_reuse_checked": 30, "corrmax_large_delays": 20, "corrmax_monophasic": 10, "nonfinite_inputs": 50,
-            "shift_waveform_checked": 3, "parabolic_checked": 50}
+            "shift_waveform_checked": 3, "parabolic_checked": 50, "phase_estimates": 40}
 CASE_TIMEOUT = 200.0
 
 _VIOL = []
@@ -53,6 +53,8 @@ def gen_cases(seed, tier):
         cases.append({"cls": "corrmax", "seed": seed * 1000 + j, "k": j, "tier": tier, "_w": 1 if tier == "quick" else 8})
     for j in range(16 if tier == "quick" else 120):
         cases.append({"cls": "shift_waveform", "seed": seed * 1000 + j, "_w": 1})
+    for j in range(5 if tier == "quick" else 40):
+        cases.append({"cls": "phase", "seed": seed * 1000 + j, "k": j, "n": 12, "_w": 1})
     cases.append({"cls": "parabolic", "seed": seed, "n": 400 if tier == "quick" else 5000, "_w": 1})
     cases.append({"cls": "model", "seed": seed, "_w": 1})
     return cases
@@ -463,6 +465,34 @@ def run_case(case):
         except Exception as e:
             res.exception("model:exception", e, "generate_waveform")
         res.sig = "model"
+    elif cls == "phase":
+        # the phase-slope estimator of the delay (wave_shift_phase, with its own or a re-used calibration): band-limited wavelets,
+        # several recording rates (AP, LF, auxiliary, calibrated) - samples are samples whatever the rate (round 19)
+        for i in range(case["n"]):
+            n = int(rng.integers(90, 140))
+            sg, wv, ph, npad = rng.uniform(6, 11), rng.uniform(1.5, 2.5), rng.uniform(0, 90), int(rng.integers(15, 40))
+            t = np.arange(n) - (n - 1) / 2
+            x = np.exp(-0.5 * (t / sg) ** 2) * np.cos(wv * t / sg)
+            x = -np.fft.irfft(np.fft.rfft(x) * np.exp(1j * ph / 180 * np.pi), n)
+            spike = np.append(x, np.zeros(npad))
+            fs = (30000, 2500, 25000, 62500, 30000.27)[(case["k"] + i) % 5]
+            sh = float(rng.uniform(-6, 6))
+            label = f"wave_shift_phase n={n}+{npad} fs={fs} applied={sh:.3f}"
+            try:
+                spike2 = fshift(spike, sh)
+                sp0, sp20 = spike.copy(), spike2.copy()
+                r, e = W.wave_shift_phase(spike, spike2, fs)
+                res.check(abs(float(e) - sh) <= 0.03, "phase:estimate", f"{label}: estimated {float(e):.3f}", counter="phase_estimates")
+                res.check(np.max(np.abs(r - spike)) <= 0.01 * np.max(np.abs(spike)), "phase:realign", f"{label}: the copy is not re-aligned ({np.max(np.abs(r - spike)) / np.max(np.abs(spike)):.3g} of the peak)")
+                a_pos, b_pos, _, _ = W.get_spike_slopeparams(spike, fs)
+                r2, e2 = W.wave_shift_phase(spike, spike2, fs, a_pos=a_pos, b_pos=b_pos)
+                res.check(abs(float(e2) - sh) <= 0.03 and np.max(np.abs(r2 - spike)) <= 0.01 * np.max(np.abs(spike)), "phase:calibration-reused",
+                          f"{label}: with the calibration passed in: estimated {float(e2):.3f}")
+                res.check(np.array_equal(spike, sp0) and np.array_equal(spike2, sp20), "phase:inputs-touched", f"{label}: the inputs are modified")
+                nt += 1
+            except Exception as ex:
+                res.exception("phase:exception", ex, label)
+        res.sig = f"phase-{case['k'] % 5}"
     for key, msg in _VIOL:
         res.violation(key, msg)
     _VIOL.clear()
